@@ -252,3 +252,17 @@ Theorem C01_config_seq_satisfiable :
   (rec_ok ex_hdr /\ (length (frame ex_hdr) <= 1024)%nat) /\
   ex_state 9 KSequence = SSeq [(b "seq1", 102%N)].
 Proof. exact (conj ex_entries_ok (conj ex_ok_at_4 (conj ex_hdr_ok (proj1 (proj2 ex_outcome))))). Qed.
+
+(** the exclusion in [cfg_inv] is real: a temporary (SetTmpValue) value does not survive a
+    snapshot as temporary, and the history item of its later commit is lost on the restarted
+    node (model-level; see SM/ConcreteInst.v) *)
+Theorem C01_tmp_value_snapshot_refuted :
+  ti_mem (st_index tmp_store) tmp_key = false /\
+  option_map (fun v => length (cv_hist v)) (cache_get (cfg_apply H0 tmp_store tmp_add) tmp_key) = Some 1%nat /\
+  match reload tmp_store with
+  | SCfg s' => ti_mem (st_index s') tmp_key = true /\
+               option_map cv_tmp (cache_get s' tmp_key) = Some false /\
+               option_map (fun v => length (cv_hist v)) (cache_get (cfg_apply H0 s' tmp_add) tmp_key) = Some 0%nat
+  | _ => False
+  end.
+Proof. exact tmp_value_snapshot_refuted. Qed.
